@@ -108,9 +108,10 @@ struct Alpha<SLabel> {
 };
 
 // multiplicity argument alphabet (C04): {0,1,2,3,7}, 1 and 2 over-weighted
+// plus rare large values (sums over a run stay far below 2^32)
 inline unsigned multArg(int64_t x) {
-    static const unsigned v[8] = {0, 1, 2, 3, 7, 1, 2, 1};
-    return v[((x % 8) + 8) % 8];
+    static const unsigned v[16] = {0, 1, 2, 3, 7, 1, 2, 1, 0, 1, 2, 3, 7, 255, 65536, 16777216};
+    return v[((x % 16) + 16) % 16];
 }
 // weight alphabets (C05). exact: {-8..8} x 1/4 ; rounded: arbitrary finite doubles in +-1e6
 inline double weightArg(int64_t x, bool exact, bool nonneg) {
